@@ -270,3 +270,113 @@ class ConstEval:
     if isinstance(r, FuncInfo):
       return Sym("func:" + r.qualname)
     raise NotConst("module ref")
+
+
+class Raised(Exception):
+  """The evaluated function raises (modelled as a value by FuncEval.call)."""
+
+
+class FuncEval:
+  """E6 restricted finite-domain evaluator for *pure integer predicates / table lookups*:
+  straight-line code with If / Return / Assign over the ConstEval expression subset, plus calls
+  to other such repo functions (bounded depth).  Anything else raises NotConst, which callers
+  turn into ANALYSIS-ERROR (never into a verdict)."""
+
+  def __init__(self, ix: Index, max_depth: int = 4):
+    self.ix = ix
+    self.max_depth = max_depth
+
+  def call(self, f: FuncInfo, env: dict, depth: int = 0):
+    if depth > self.max_depth:
+      raise NotConst("call depth")
+    ce = _CallingConstEval(self.ix, self, f, depth)
+    try:
+      return self._block(ce, f, f.node.body, dict(env))
+    except _Return as r:
+      return r.value
+
+  def _block(self, ce, f, stmts, env):
+    for st in stmts:
+      if isinstance(st, ast.Expr):
+        if isinstance(st.value, ast.Constant):
+          continue
+        ce.ev(f.module, st.value, f.cls, env)
+      elif isinstance(st, ast.Pass):
+        continue
+      elif isinstance(st, ast.Return):
+        raise _Return(ce.ev(f.module, st.value, f.cls, env) if st.value is not None else None)
+      elif isinstance(st, ast.Raise):
+        raise Raised()
+      elif isinstance(st, ast.Assign) and len(st.targets) == 1:
+        v = ce.ev(f.module, st.value, f.cls, env)
+        self._bind(st.targets[0], v, env)
+      elif isinstance(st, ast.AnnAssign) and st.value is not None:
+        self._bind(st.target, ce.ev(f.module, st.value, f.cls, env), env)
+      elif isinstance(st, ast.If):
+        t = ce.ev(f.module, st.test, f.cls, env)
+        self._block(ce, f, st.body if t else st.orelse, env)
+      else:
+        raise NotConst(f"statement {type(st).__name__} at line {st.lineno}")
+    return None
+
+  @staticmethod
+  def _bind(target, v, env):
+    if isinstance(target, ast.Name):
+      env[target.id] = v
+    elif isinstance(target, ast.Attribute) and isinstance(target.value, ast.Name):
+      env[f"{target.value.id}.{target.attr}"] = v
+    elif isinstance(target, (ast.Tuple, ast.List)) and isinstance(v, (tuple, list)) and len(v) == len(target.elts):
+      for t, x in zip(target.elts, v):
+        FuncEval._bind(t, x, env)
+    else:
+      raise NotConst("assignment target")
+
+
+class _Return(Exception):
+  def __init__(self, value):
+    self.value = value
+
+
+class _CallingConstEval(ConstEval):
+  """ConstEval whose names may come from an env that also holds 'self.attr' entries, and which
+  may call other pure repo functions through FuncEval."""
+
+  def __init__(self, ix, fe: FuncEval, f: FuncInfo, depth: int):
+    super().__init__(ix, symbolic_ok=True)
+    self.fe, self.f, self.depth = fe, f, depth
+
+  def _ev(self, m, e, cls, env):
+    if isinstance(e, ast.Attribute) and isinstance(e.value, ast.Name):
+      k = f"{e.value.id}.{e.attr}"
+      if k in env:
+        return env[k]
+    if isinstance(e, ast.Call):
+      fn = e.func
+      target = None
+      if isinstance(fn, (ast.Name, ast.Attribute)) and dotted(fn) is not None:
+        head = dotted(fn).split(".")[0]
+        if head not in env and head not in ("self", "cls"):
+          target = self.ix.resolve(m, fn, cls=cls, func=self.f if isinstance(self.f, FuncInfo) else None)
+        elif head in ("self", "cls") and cls is not None and isinstance(fn, ast.Attribute) and isinstance(fn.value, ast.Name):
+          target = self.ix.lookup_method(cls, fn.attr)
+      if isinstance(target, FuncInfo) and not e.keywords:
+        args = [self._ev(m, a, cls, env) for a in e.args]
+        params = list(target.params)
+        call_env = {}
+        if target.cls is not None and not target.is_static and params:
+          # bound call on self: share the self.* entries
+          for k, v in env.items():
+            if k.startswith("self."):
+              call_env[k] = v
+          params = params[1:]
+        for p, a in zip(params, args):
+          call_env[p] = a
+        # defaults
+        d = target.node.args.defaults
+        if d:
+          names = [x.arg for x in target.node.args.args]
+          for name, dv in zip(names[len(names) - len(d):], d):
+            if name not in call_env and name not in ("self", "cls"):
+              call_env[name] = ConstEval(self.ix).ev(target.module, dv, target.cls)
+        return self.fe.call(target, call_env, self.depth + 1)
+    return super()._ev(m, e, cls, env)
